@@ -9,6 +9,7 @@ CONSTANTS
   Mode = "blocks"
   RestoreOnException = TRUE
   HandleCaptures = FALSE
+  SwitchShared = FALSE
 INVARIANT EnabledIffOutside
 INVARIANT NoJunkOutside
 INVARIANT CaseInv
